@@ -47,6 +47,28 @@ def run(prog, rep):
     rep.rule('R8', 'a (re-)import moves the id allocator past the imported nodes on every path', floor=4)
     nxg.check_allocator_paths(prog, rep, 'R8')
 
+    # R9: loading a model keeps the graph id its text carries, unless the caller names another
+    rep.rule('R9', 'topology loaders use the id-keeping import unless the caller supplies a new graph id', floor=3)
+    tmod = prog.module('fim.user.topology')
+    for tcls in tmod.classes.values():
+        ld = tcls.methods.get('load')
+        if ld is None:
+            continue
+        ldi = inline(prog, tcls, ld)
+        params9 = set(func_params(ldi))
+        for c in walk_no_nested(ldi):
+            if not (isinstance(c, ast.Call) and call_name(c).startswith('import_graph_from_')):
+                continue
+            direct = call_name(c).endswith('_direct')
+            gid = kwarg(c, 'graph_id')
+            named = gid is not None and any(isinstance(x, ast.Name) and x.id in params9 for x in ast.walk(gid))
+            rep.instance('R9', f'{tcls.name}.load: {call_name(c)}({"graph_id=" + norm(gid) if gid is not None else ""})')
+            if not direct and not named:
+                rep.violation('R9', loc(tmod, c), f'{tcls.name}.load', f'{call_name(c)} without a graph id of the caller',
+                              f'{call_name(c)} gives the imported model a graph id of its own (a fresh one when none is passed); used in a loader '
+                              f'without a caller-supplied id, the model comes back under another graph id than the one its text carries - the '
+                              f'sibling branch of the same loader (file / string) keeps the id')
+
     nxi = prog.cls(NXI)
     imod = nxi.module
     nxpg = prog.cls(nxg.NXPG)
